@@ -467,7 +467,8 @@ def r4_gradient(ctx, repo, cls):
     # stored under features['gradient'] of the design
     stored = [s for s in ploop.body if isinstance(s, ast.Assign) and any(text(t) == "%s.features['gradient']" % ind for t in s.targets)
               and access_path(s.value) == access_path(q.targets[0].value)]
-    ctx.check(bool(stored), "R4", construct, where(mod, ploop), "the computed vector is stored as features['gradient'] of its design", key="stored")
+    ctx.check3(True if stored else None, "R4", construct, where(mod, ploop), "the computed vector is stored as features['gradient'] of its design",
+               unknown_detail="storing of the gradient not recognised", key="stored")
     # step literal in __init__
     init = cls.methods.get("__init__")
     lit = None
